@@ -60,6 +60,42 @@ pub fn dispatch(parts: &[&str]) -> String {
             a.copy_from_slice(&b);
             format!("ok {}", U256::from_byte_array(a))
         }
+        "parse_hex" => {
+            // parse_hex <digits> <type text>
+            let digits = simfony::str::Hexadecimal::from_str_unchecked(&unhex(parts[1]));
+            let ty = match simfony::ResolvedType::parse_from_str(&unhex(parts[2])) {
+                Ok(t) => t,
+                Err(e) => return format!("type-err {}", e.to_string().replace('\n', " ")),
+            };
+            match simfony::Value::parse_hexadecimal(&digits, &ty) {
+                Ok(v) => format!("ok {}", v),
+                Err(_) => "err".to_string(),
+            }
+        }
+        "parse_dec" => {
+            let digits = simfony::str::Decimal::from_str_unchecked(&unhex(parts[1]));
+            let ty = match unhex(parts[2]).as_str() {
+                "u1" => simfony::types::UIntType::U1, "u2" => simfony::types::UIntType::U2, "u4" => simfony::types::UIntType::U4,
+                "u8" => simfony::types::UIntType::U8, "u16" => simfony::types::UIntType::U16, "u32" => simfony::types::UIntType::U32,
+                "u64" => simfony::types::UIntType::U64, "u128" => simfony::types::UIntType::U128, _ => simfony::types::UIntType::U256,
+            };
+            match simfony::value::UIntValue::parse_decimal(&digits, ty) {
+                Ok(v) => format!("ok {}", v),
+                Err(_) => "err".to_string(),
+            }
+        }
+        "parse_bin" => {
+            let digits = simfony::str::Binary::from_str_unchecked(&unhex(parts[1]));
+            let ty = match unhex(parts[2]).as_str() {
+                "u1" => simfony::types::UIntType::U1, "u2" => simfony::types::UIntType::U2, "u4" => simfony::types::UIntType::U4,
+                "u8" => simfony::types::UIntType::U8, "u16" => simfony::types::UIntType::U16, "u32" => simfony::types::UIntType::U32,
+                "u64" => simfony::types::UIntType::U64, "u128" => simfony::types::UIntType::U128, _ => simfony::types::UIntType::U256,
+            };
+            match simfony::value::UIntValue::parse_binary(&digits, ty) {
+                Ok(v) => format!("ok {}", v),
+                Err(_) => "err".to_string(),
+            }
+        }
         "run" => {
             // run <src> <args module> <witness module> <debug 0|1>
             run_program(&unhex(parts[1]), &unhex(parts[2]), &unhex(parts[3]), parts.get(4) == Some(&"1"))
